@@ -20,7 +20,8 @@ LEVEL_NOTE = "trusts CPython string slicing/search and Biopython's SeqRecord"
 RULE = ("(a) exhaustive: every record over {A,C} of length 1..6 (thorough 1..8, plus {A,C,G} up to 5) x every query over the same "
         "alphabet of length 0..n+2 - on the record and on a library-made rotation of it - and every slice [a:b:c] with a,b in "
         "[-n-2,n+2] or None and c in {None,1,2,3,-1,-2}; (b) random DNA of length 1..60 with queries cut across the origin, their "
-        "one-letter mutants and over-long queries; (c) + / += / reflected + with str, Seq, SeqRecord, CircularRecord, empty "
+        "one-letter mutants and over-long queries, then the same object's sequence edited (same-length replacement, in-place MutableSeq "
+        "point edit, reversal) and queried again; (c) + / += / reflected + with str, Seq, SeqRecord, CircularRecord, empty "
         "operands; constructor with topology linear/Linear/LINEAR (wrapped record and direct annotations); copy isolation of "
         "annotations, dbxrefs, features, qualifiers, letter annotations; (d) embedded annotated assemblies. "
         "Non-trivial = the query is non-empty and not longer than the record, or the slice is non-empty; distinct = distinct "
@@ -138,6 +139,35 @@ def execute(mat, ctx):
         for _ in range(10):
             a, b = rng.randint(-n - 2, n + 2), rng.randint(-n - 2, n + 2)
             r[a:b:rng.choice([None, None, 1, 2, -1])]
+        # history on the SAME object: the sequence is edited after it has been queried (a same-length replacement, a point
+        # edit of a MutableSeq in place, a different length) and the same queries are asked again
+        from Bio.Seq import Seq, MutableSeq
+        how = mat["i"] % 4
+        s2 = None
+        if how == 0:
+            s2 = gen.rand_dna(rng, n) if s.isupper() else gen.rand_dna(rng, n).lower()
+            r.seq = Seq(s2)
+        elif how == 1:
+            m = _rec(s)
+            m.seq = MutableSeq(s)
+            for q in qs[:6]:
+                q in m
+            j = rng.randrange(n)
+            m.seq[j] = rng.choice([x for x in ("ACGT" if s.isupper() else "acgt") if x != s[j]])
+            r, s2 = m, str(m.seq)
+        elif how == 2:
+            s2 = s[::-1]
+            r.seq = Seq(s2)
+        if s2 is not None:
+            ctx.count("edited_then_queried")
+            d2 = s2 + s2
+            again = list(qs) + [d2[a:a + L] for a, L in ((rng.randrange(n), rng.randint(1, n)) for _ in range(8))]
+            for q in again:
+                ctx.count("evaluations")
+                q in r
+            for _ in range(4):
+                a, b = rng.randint(-n - 2, n + 2), rng.randint(-n - 2, n + 2)
+                r[a:b:rng.choice([None, 1, -1])]
         ctx.sample({"kind": "rand", "record": s, "queries": qs[:4]}, cap=2)
         return
     # kind == "ops": +, constructor, copy
